@@ -6,6 +6,7 @@ import CasbinVerif.Driver.Config
 import CasbinVerif.Driver.Cached
 import CasbinVerif.Driver.Sync
 import CasbinVerif.Driver.Lin
+import CasbinVerif.Driver.CondRM
 /-
   casbin-model: the line-protocol driver.  Reads one operation per line on stdin and prints, for
   every line, `<model observation> ;; <spec observation> ;; <wf>` where `wf` tells whether the line
@@ -20,6 +21,7 @@ structure DState where
   enf : EnfSt := {}
   cached : CachedSt := {}
   lin : LinSt := {}
+  cond : CondSt := {}
 
 def fmt (m s : String) (wf : Bool) : String := s!"{m} ;; {s} ;; {if wf then 1 else 0}"
 
@@ -46,6 +48,10 @@ def stepLine (st : DState) (line : String) : DState × String :=
     else if comp == "lin" then
       match linOp st.lin ts with
       | some (s', m, s, wf) => ({ st with lin := s' }, fmt m s wf)
+      | none => (st, "bad-op")
+    else if comp == "condrm" then
+      match condOp st.cond ts with
+      | some (s', m, s, wf) => ({ st with cond := s' }, fmt m s wf)
       | none => (st, "bad-op")
     else if comp == "sync" then
       match syncOp ts with
